@@ -615,6 +615,8 @@ def run(ctx):
                     inloop = getattr(inloop, '_parent', None)
                 quote_branch = inloop is not None
     site_split = f_split.loc()
+    if sep is None:
+        raise AnalysisError('C01.8: the argument splitter is no longer a scan that tests for the separator with startswith(): its separator cannot be read off')
     ctx.check(sep == ', ', 'C01.8', 'splitter:separator', site_split, "splitter separator is ', ' as printed by libwayland",
               'splitter separator is %r, libwayland prints %r' % (sep, ', '))
     ctx.check(skip == 'len' or (sep is not None and skip == len(sep)), 'C01.8', 'splitter:skip', site_split,
